@@ -34,9 +34,12 @@ func run(c *core.Ctx) {
 	wg.Add(1)
 	go func() {
 		defer wg.Done()
-		// 0.5 M states (quick) / 3.5 M states (thorough); the generous timeout only
+		// 0.46 M states (quick) / millions (thorough); the generous timeout only
 		// matters on a machine that is busy with other work
 		kit.ModelCheck(c, "Server.tla", mc, tlc.Options{Workers: 12, Timeout: 25 * time.Minute})
+		if c.Thorough() {
+			kit.ModelCheck(c, "Server.tla", "MC_C05_users.cfg", tlc.Options{Workers: 12, Timeout: 25 * time.Minute})
+		}
 	}()
 	parts := make([][]*srvreplay.Scenario, len(gens))
 	for gi, g := range gens {
